@@ -340,9 +340,13 @@ namespace cnl {
             [[nodiscard]] constexpr auto operator()(Lhs const& lhs, Rhs const& rhs) const
             {
                 using traits = operator_overflow_traits<shift_left_op, Lhs, Rhs>;
+                // a type without a most negative number (lowest() == -max()) cannot hold -2^digits
+                constexpr auto symmetric_range = !has_most_negative_number<typename traits::result>::value;
                 return lhs < 0 ? rhs > 0 ? rhs < traits::positive_digits
                                                  ? (lhs >> (traits::positive_digits - rhs)) != -1
-                                                 : (rhs > traits::positive_digits || lhs != -1)
+                                                           || (symmetric_range
+                                                               && lhs == (static_cast<Lhs>(-1) << (traits::positive_digits - rhs)))
+                                                 : (rhs > traits::positive_digits || lhs != -1 || symmetric_range)
                                          : false
                                : false;
             }
